@@ -938,7 +938,12 @@ class NetworkGraph(AbstractBaseIR):
 
                 # define edge projection equation
                 s_str_final = _get_indexed_var_str(s_str, sidx_unique, ssize, idx_str=sidx_str, arg_dict=args)
-                t_str_final = _get_indexed_var_str(t_str, tidx_unique, tsize, idx_str=tidx_str, arg_dict=args)
+                if len(tidx_unique) == 1 and tsize > 1 and len(sidx_unique) > 1:
+                    # single target unit: address it as a slice of length 1 (a length-1 index vector ends up as a scalar
+                    # index, which cannot take the length-1 result of the matrix product)
+                    t_str_final = _get_indexed_var_str(t_str, (int(tidx_unique[0]), int(tidx_unique[0]) + 1), tsize)
+                else:
+                    t_str_final = _get_indexed_var_str(t_str, tidx_unique, tsize, idx_str=tidx_str, arg_dict=args)
                 if len(sidx_unique) == 1:
                     # Single-source: the source variable is a scalar at runtime
                     # (time-series arrays are squeezed to 1D so arr[t] returns 0-d).
@@ -948,6 +953,9 @@ class NetworkGraph(AbstractBaseIR):
                     weight_mat = weight_mat.squeeze(axis=1)
                     eq = f"{t_str_final} = {w_str} * {s_str_final}"
                 else:
+                    if len(tidx_unique) == 1 and tsize == 1:
+                        # scalar target variable: a weight vector, so that the product is a scalar as well
+                        weight_mat = weight_mat.squeeze(axis=0)
                     eq = f"{t_str_final} = matvec({w_str}, {s_str_final})"
                 args[w_str] = {'vtype': 'constant', 'value': weight_mat, 'dtype': 'float', 'shape': weight_mat.shape}
 
